@@ -202,4 +202,27 @@ def _check(cat, d, CompaSOHaloCatalog):
             if raw is not None and col != 'origin' and col not in ('pos_interp', 'vel_interp') and not EIG.fullmatch(col):
                 if not (raw.shape == on.shape and np.array_equal(raw, on.astype(raw.dtype), equal_nan=(raw.dtype.kind == 'f'))):
                     raise Violation('unchanged-column-changed', 'column %s is not the stored column' % name)
+    # the same columns requested as an explicit list with every derived column *before* the column it is relative to
+    # (columns load in reverse request order, so the base columns are unpacked first): values must not depend on that
+    bases = [c for c in con.halos.colnames if re.fullmatch(r'(r100|sigmav3d)_(L2)?com', c)]
+    order = [c for c in con.halos.colnames if c not in bases] + bases
+    with warnings.catch_warnings():
+        warnings.simplefilter('ignore')
+        try:
+            c3 = CompaSOHaloCatalog(cat.groupdir, cleaned=cleaned, fields=order, convert_units=True)
+        except Exception as e:
+            raise Violation('load-raised:%s' % type(e).__name__, 'explicit field list (derived columns first): %s: %s' % (type(e).__name__, str(e)[:300]))
+    for col in con.halos.colnames:
+        if col not in c3.halos.colnames:
+            raise Violation('column-missing-in-explicit-list', col)
+        a, b = np.asarray(c3.halos[col]), np.asarray(con.halos[col])
+        same = a.shape == b.shape and (np.array_equal(a, b, equal_nan=True) if a.dtype.kind == 'f' else np.array_equal(a, b))
+        if not same:
+            r = None
+            try:
+                with np.errstate(all='ignore'):
+                    r = float(np.nanmedian(a.astype(np.float64) / b.astype(np.float64)))
+            except Exception:
+                pass
+            raise Violation('units-depend-on-field-order', 'column %s requested in an explicit list (derived columns listed before %s) differs from the same column through fields="all" (median ratio %r; BoxSize=%r, VelZSpace_to_kms=%r)' % (col, bases[:2], r, box, velz))
     return None
